@@ -14,6 +14,7 @@ from gpmc.core import REPO, HarnessError
 
 
 MAX_POINTS_BOUND2 = 90
+MAX_POINTS = 8000
 
 
 def _outcome(fn):
@@ -128,11 +129,13 @@ def evaluate(case, rec, calls, files, site, min_points=2):
         part = tuple(case['part']) if case.get('part') else None
         # the schedule space grows with (scheduling points)^bound: two preemptions are explored where one execution has at
         # most MAX_POINTS_BOUND2 scheduling points, one preemption otherwise (the bound actually used is reported)
-        if bound > 1:
-            probe = run_one([])
-            if len(probe['points']) > MAX_POINTS_BOUND2:
-                bound = 1
-                rec.outcome('threads-bound-reduced-to-1')
+        probe = run_one([])
+        if len(probe['points']) > MAX_POINTS:
+            raise HarnessError('calls %r have %d scheduling points in one execution: too long for an exhaustive schedule exploration '
+                               '(choose shorter representative calls)' % (names, len(probe['points'])))
+        if bound > 1 and len(probe['points']) > MAX_POINTS_BOUND2:
+            bound = 1
+            rec.outcome('threads-bound-reduced-to-1')
         try:
             st = sched.explore(run_one, bound, check, part=part)
         except sched.Divergence:
